@@ -8,14 +8,14 @@ the Go source (`Facts.C02`, interpreted by `C02.orders`).  The executable manage
 (TdModel/Model/C02Mgr.lean) applies exactly these per-sequence steps and logs them; the driver
 replays each scenario's per-sequence op list through the LTS proved here.
 -/
-import TdModel.Lemmas.C02Core
+import TdModel.Lemmas.C02MgrG
 import TdModel.Model.C02
 
 namespace TdModel.C02
 open TdModel.C01 TdModel.C02Core
 
 /-- The apply callbacks dispatch the batch the box hands them, then persist. -/
-theorem apply_callbacks_dispatch_then_store (k : SeqKey) : applyCallsOf orders k = [.dispatch, .store] := by
+theorem apply_callbacks_dispatch_then_store (k : Nat) : applyCallsOf orders k = [.dispatch, .store] := by
   by_cases h0 : k = 0
   · subst h0; decide
   · by_cases h1 : k = 1
@@ -30,7 +30,7 @@ theorem marker_skip_is_continue :
     Facts.C02.applyPtsSkip = 0 ∧ Facts.C02.chApplyPtsSkip = 0 ∧
     orders.applyPtsBreak = false ∧ orders.chApplyPtsBreak = false := by decide
 
-theorem apply_callbacks_good (mk : Nat → Bool) (k : SeqKey) : GoodCfg (applyCfgOf orders mk k) := by
+theorem apply_callbacks_good (mk : Nat → Bool) (k : Nat) : GoodCfg (applyCfgOf orders mk k) := by
   refine ⟨apply_callbacks_dispatch_then_store k, ?_⟩
   show (if k = 0 then orders.applyPtsBreak else if k = 1 then false else orders.chApplyPtsBreak) = false
   rw [marker_skip_is_continue.2.2.1, marker_skip_is_continue.2.2.2]
@@ -39,7 +39,7 @@ theorem apply_callbacks_good (mk : Nat → Bool) (k : SeqKey) : GoodCfg (applyCf
   · split <;> rfl
 
 /-- **Every non-marker update of an applied batch is handed to the handler**, and nothing else. -/
-theorem applied_batch_dispatches_every_non_marker (mk : Nat → Bool) (k : SeqKey) (us : List Upd) (i : Nat) :
+theorem applied_batch_dispatches_every_non_marker (mk : Nat → Bool) (k : Nat) (us : List Upd) (i : Nat) :
     i ∈ batchIds (applyCfgOf orders mk k) us ↔ (∃ u ∈ us, u.tag = i) ∧ mk i = false :=
   mem_batchIds _ (apply_callbacks_good mk k).cont us i
 
@@ -72,7 +72,7 @@ included), any start position `lo`, and any well-formed op list (arbitrary pushe
 loss, duplication, reordering, affected results early/late/never — gap clears, honest differences
 in one piece or sliced) that ends at or above every log position (a completed recovery): every
 non-marker log entry above `lo` has been dispatched, unless too-long was reported. -/
-theorem C02_recovery_complete (k : SeqKey) (mk : Nat → Bool) (log : List Entry) (c0 lo : Int) (hc0 : 0 ≤ c0)
+theorem C02_recovery_complete (k : Nat) (mk : Nat → Bool) (log : List Entry) (c0 lo : Int) (hc0 : 0 ≤ c0)
     (ht : tiled c0 log = true) (ops : List SOp)
     (hw : wfRun (applyCfgOf orders mk k) log { state := lo } ops = true)
     (hrec : ∀ e ∈ log, e.pos ≤ (srun (applyCfgOf orders mk k) { state := lo } ops).1.state) :
@@ -93,7 +93,7 @@ theorem C02_recovery_complete (k : SeqKey) (mk : Nat → Bool) (log : List Entry
 
 /-- A final difference up to position `x` is such a recovery when `x` is at or above every log
 position. -/
-theorem C02_final_difference_recovers (k : SeqKey) (mk : Nat → Bool) (log : List Entry) (c0 lo : Int)
+theorem C02_final_difference_recovers (k : Nat) (mk : Nat → Bool) (log : List Entry) (c0 lo : Int)
     (hc0 : 0 ≤ c0) (ht : tiled c0 log = true) (ops : List SOp) (x : Int) (direct : List Entry)
     (hw : wfRun (applyCfgOf orders mk k) log { state := lo } (ops ++ [.seq diffShape x direct]) = true)
     (hx : ∀ e ∈ log, e.pos ≤ x) :
@@ -173,5 +173,34 @@ theorem C02_counterexample_channel :
 example : commonHistory orders = [.apiDiff 10 0, .apiDiff 10 0, .dispatch [1, 2], .storeState 12 0] := by decide
 example : channelHistory orders =
     [.apiDiff 10 0, .apiChDiff 5 5, .storeChan 5 5, .apiChDiff 5 5, .dispatch [1, 2], .storeChan 5 7] := by decide
+
+/-! ### The whole manager model -/
+
+/-- The regenerated orders are the ones the manager-level invariant is proved for. -/
+theorem orders_good : GoodOrders orders :=
+  ⟨by decide, by decide, by decide, by decide, by decide, by decide, by decide, by decide, by decide, by decide,
+   by decide, by decide, by decide, by decide, by decide, by decide⟩
+
+/-- **No update is lost, for the whole manager model.** Take any server world (log with distinct
+ids tiling every tracked sequence — `scnOK`), any persisted start, any number of tracked channels,
+any list of harness actions (pushes in any order with loss and duplicates, affected results,
+forced recoveries, sliced answers, timers).  For every tracked sequence `k`: if at the end the
+sequence's position is at or above every log position of `k` (recovery completed), then every
+non-marker entry of `k` above the start was dispatched by the manager, unless too-long was reported. -/
+theorem C02_manager_recovery_complete (w : World) (fp fq : Int) (fc : List (Nat × Int)) (acts : List Action)
+    (hS : scnOK w.log (seqKeys fc) (initOf w.p0 w.q0 w.c0) = true) (k : Nat) (hk : k ∈ seqKeys fc)
+    (b : Box) (hb : ((Mgr.start orders w fp fq fc).runActions orders acts).getBox k = some b)
+    (hrec : ∀ e ∈ seqLog w.log k, e.pos ≤ b.state) :
+    complete (seqLog w.log k) (mkOf w.log) (initOf fp fq fc k)
+      (projSeq w.log k ((Mgr.start orders w fp fq fc).runActions orders acts).trace) = true := by
+  have hscn := scn_of_ok _ _ _ hS
+  obtain ⟨hw, htr, hbox⟩ := mgr_projects orders orders_good w fp fq fc hscn acts k hk
+  rw [htr]
+  apply C02_recovery_complete k (mkOf w.log) (seqLog w.log k) _ (initOf fp fq fc k)
+    (hscn.orgNonneg k hk) (hscn.tiledK k hk) _ hw
+  intro e he
+  rw [hb] at hbox
+  rw [← Option.some.inj hbox]
+  exact hrec e he
 
 end TdModel.C02
